@@ -242,6 +242,22 @@ example : (match compile exFrag with
 example : ((Num.run exFrag ⟨[], []⟩ exStore).map Num.Result.obs).toOption =
     some ⟨[⟨"b", "alice", 3, "USD"⟩, ⟨"world", "alice", 7, "USD"⟩], [("k", "3")], [], []⟩ := by decide +kernel
 
+/-! … and an ordered destination with a capped account, a capped `kept` and a nested ordered `remaining` -/
+def exOrd : Script :=
+  ⟨[], [.send (.mon (.mon (.asset "USD") 10)) (.src (.acct (.acct "world") .none))
+          (.inorder (.cons (.mon (.asset "USD") 3) (.to (.acct (.acct "a"))) (.cons (.mon (.asset "USD") 2) .kept .nil))
+            (.to (.inorder (.cons (.mon (.asset "USD") 1) (.to (.acct (.acct "c"))) .nil) (.to (.acct (.acct "b"))))))]⟩
+
+example : Script.frag exOrd := ⟨by simp [exOrd], by intro s hs; simp [exOrd] at hs; subst hs; rfl⟩
+
+example : (match compile exOrd with
+    | .ok prog => (match VM.run prog ⟨[], []⟩ exStore with | .ok r => some r.obs | _ => none)
+    | .error _ => none) =
+    some ⟨[⟨"world", "a", 3, "USD"⟩, ⟨"world", "c", 1, "USD"⟩, ⟨"world", "b", 4, "USD"⟩], [], [], []⟩ := by decide +kernel
+
+example : ((Num.run exOrd ⟨[], []⟩ exStore).map Num.Result.obs).toOption =
+    some ⟨[⟨"world", "a", 3, "USD"⟩, ⟨"world", "c", 1, "USD"⟩, ⟨"world", "b", 4, "USD"⟩], [], [], []⟩ := by decide +kernel
+
 /-- invariant of the cache: every entry is the compilation of some text with that digest -/
 def CacheInv {Text Key Prog : Type} (H : Text → Key) (compile : Text → Option Prog) (c : Cache.Store Key Prog) : Prop :=
   ∀ kp ∈ c, ∃ t, kp.1 = H t ∧ compile t = some kp.2
